@@ -49,6 +49,8 @@ example : exCtxOnDemand.safeCheck = true := by decide +kernel
 example : exMachine.leavesOK {} = true := by decide +kernel
 /-- hypothesis of C04 (no dispatch runs into its move budget) -/
 example : exCtx.noSpinCheck = true := by decide +kernel
+/-- hypothesis of `C10_end_fail_is_final` (a FAIL from `end()` leaves the fail state behind) -/
+example : exMachine.endFailOK {} = true := by decide +kernel
 /-- hypothesis of C17 (no data-pattern arm is taken on end-of-input) -/
 example : exMachine.endArmsOK = true := by decide +kernel
 
